@@ -10,12 +10,12 @@ Inductive patch :=
 | PWl (i : Z) (v : option amap)
 | PLim (i : Z) (v : option lmap)
 | PPool (i : Z) (v : option pmap)
-| PBal (i : Z) (v : Z)
+| PBal (i : Z) (d : Z) (v : Z)
 | PMark (f t : Z) (h : string) (v : Z)
-| PStatus (i : Z)                        (* a limit-status record exists (never, on the modelled code) *)
+| PStatus (i : Z) (v : option smap)      (* the limit-status record *)
 | PMarkGone (f t : Z) (h : string).      (* a vote mark disappeared (never, on the modelled code) *)
 
-Inductive c17_case := C17 (bals : list Z) (steps : list (op * Z * list patch)).
+Inductive c17_case := C17 (bals : list coins) (steps : list (op * Z * list patch)).
 
 (* ---------------------------------------------------------------- equality of observations *)
 Definition settings_eqb (a b : settings) : bool :=
@@ -30,14 +30,20 @@ Definition sub_map {K V} (ke : K -> K -> bool) (ve : V -> V -> bool) (l m : list
   forallb (fun e => existsb (fun e' => ke (fst e) (fst e') && ve (snd e) (snd e')) m) l.
 Definition map_eqb {K V} (ke : K -> K -> bool) (ve : V -> V -> bool) (l m : list (K * V)) : bool :=
   Nat.eqb (List.length l) (List.length m) && sub_map ke ve l m && sub_map ke ve m l.
+Definition coin_eqb (a b : Z * Z) : bool := (fst a =? fst b) && (snd a =? snd b).
 Definition txr_eqb (a b : txr) : bool :=
-  (t_to a =? t_to b) && (t_amt a =? t_amt b) && String.eqb (t_pw a) (t_pw b) && list_eqb Z.eqb (t_rew a) (t_rew b)
+  (t_to a =? t_to b) && list_eqb coin_eqb (t_amt a) (t_amt b) && String.eqb (t_pw a) (t_pw b) && list_eqb coin_eqb (t_rew a) (t_rew b)
   && (t_votes a =? t_votes b) && Bool.eqb (t_conf a) (t_conf b).
+(* the denominations the harness uses *)
+Definition denoms : list Z := [0; 1; 2].
+Definition bal_eqb (a b : coins) : bool := forallb (fun d => bal_get d a =? bal_get d b) denoms.
+Definition stat_eqb (a b : Z * Z) : bool := (fst a =? fst b) && (snd a =? snd b).
 Definition lim_eqb (a b : Z * string) : bool := (fst a =? fst b) && String.eqb (snd a) (snd b).
 Definition acct_eqb (a b : acct) : bool :=
   opt_eqb settings_eqb (a_set a) (a_set b) && opt_eqb (map_eqb Z.eqb Bool.eqb) (a_cust a) (a_cust b)
   && opt_eqb (map_eqb Z.eqb Bool.eqb) (a_wl a) (a_wl b) && opt_eqb (map_eqb Z.eqb lim_eqb) (a_lim a) (a_lim b)
-  && opt_eqb (map_eqb String.eqb txr_eqb) (a_pool a) (a_pool b) && (a_bal a =? a_bal b).
+  && opt_eqb (map_eqb String.eqb txr_eqb) (a_pool a) (a_pool b) && bal_eqb (a_bal a) (a_bal b)
+  && opt_eqb (map_eqb Z.eqb stat_eqb) (a_stat a) (a_stat b).
 Definition mark4_eqb (a b : Z * Z * string * Z) : bool :=
   match a, b with (f, t, h, v), (f', t', h', v') => (f =? f') && (t =? t') && String.eqb h h' && (v =? v') end.
 Definition marks_eqb (l m : list (Z * Z * string * Z)) : bool :=
@@ -54,9 +60,10 @@ Definition apply_patch (s : option state) (p : patch) : option state :=
   | PWl i v => Some (setA s i (with_wl (getA s i) v))
   | PLim i v => Some (setA s i (with_lim (getA s i) v))
   | PPool i v => Some (setA s i (with_pool (getA s i) v))
-  | PBal i v => Some (setA s i (with_bal (getA s i) v))
+  | PBal i d v => Some (setA s i (with_bal (getA s i) (map_set d v (a_bal (getA s i)))))
+  | PStatus i v => Some (setA s i (with_stat (getA s i) v))
   | PMark f t h v => Some (add_mark s f t h v)
-  | PStatus _ | PMarkGone _ _ _ => None
+  | PMarkGone _ _ _ => None
   end end.
 (* keep the association list short: rebuild it over the n accounts *)
 Definition compact (n : nat) (s : state) : state :=
@@ -66,6 +73,7 @@ Definition outcome_code {A} (o : outcome A) : Z := match o with Ok _ => 0 | Err 
 
 (* ---------------------------------------------------------------- model vs observation, step by step from the OBSERVED state *)
 Section Corr.
+Variable v : variant.
 Variable minrew : Z.
 (* the harness supplies the digest of the OldKey in place of the OldKey: H is the identity here *)
 Definition Hid (x : string) : string := x.
@@ -78,7 +86,7 @@ Fixpoint steps_match (n : nat) (s : state) (steps : list (op * Z * list patch)) 
       | None => false
       | Some obs =>
           let obs := compact n obs in
-          let m := step Hid minrew s o in
+          let m := step v Hid minrew s o in
           (outcome_code m =? code)
           && (match m with Ok s' => state_eqb n s' obs | _ => state_eqb n s obs end)
           && steps_match n obs r
@@ -102,7 +110,7 @@ Definition kind_name (o : op) : string :=
   | OAdd LWl _ _ _ => "add_whitelist" | ORem LWl _ _ _ => "remove_whitelist" | ODropL LWl _ _ => "drop_whitelist"
   | OAddLim _ _ _ _ _ => "add_limits" | ORemLim _ _ _ => "remove_limits" | ODropLim _ _ => "drop_limits"
   | OSend _ _ _ _ _ _ => "custody_send" | OApprove _ _ _ => "approve" | ODecline _ _ _ => "decline"
-  | OConfirm _ _ _ _ _ => "confirm" | OBank _ _ _ => "bank_send" | OMulti _ _ _ => "multisend"
+  | OConfirm _ _ _ _ _ => "confirm" | OBank _ _ _ _ => "bank_send" | OMulti _ _ _ => "multisend"
   end%string.
 Definition op_kp (o : op) : option kp :=
   match o with
@@ -122,19 +130,27 @@ Definition custodians (a : acct) : list Z :=
 Definition is_custodian (a : acct) (f : Z) : bool := existsb (Z.eqb f) (custodians a).
 Definition n_cust (a : acct) : Z := Z.of_nat (List.length (custodians a)).
 Definition flag (f : settings -> bool) (a : acct) : bool := match a_set a with Some st => f st | None => false end.
+(* some denomination of the balance went down *)
+Definition dec (pre post : acct) : bool := existsb (fun d => bal_get d (a_bal post) <? bal_get d (a_bal pre)) denoms.
 
 Definition cl (a b : string) : string := (a ++ ":" ++ b)%string.
 Definition cl3 (a b c : string) : string := (a ++ ":" ++ b ++ ":" ++ c)%string.
 
-(* whitelist / limits of the paying account against one transfer; an absent list restricts nothing *)
-Definition wl_lim_clauses (a : acct) (to amt : Z) (path : string) : list string :=
+(* a limit entry restricts a coin: present, not removed (a removed entry is the empty limit), amount above it *)
+Definition over_limit (l : lmap) (c : Z * Z) : bool :=
+  match alist_get (fst c) l with
+  | Some (cap, lim) => negb ((cap =? 0) && String.eqb lim "") && (cap <? snd c)
+  | None => false end.
+(* whitelist / limits of the paying account against one transfer; an absent list restricts nothing;
+   the limit clause only asks that a single transfer above the limit's amount is refused *)
+Definition wl_lim_clauses (a : acct) (to : Z) (amt : coins) (path : string) : list string :=
   (if flag s_wl a then match a_wl a with Some w => if bool_at to w then [] else [cl "whitelist" path] | None => [] end else []) ++
   (if flag s_lim a then match a_lim a with
-                        | Some l => match alist_get 0 l with Some (cap, _) => if cap <? amt then [cl "limits" path] else [] | None => [] end
+                        | Some l => if existsb (over_limit l) amt then [cl "limits" path] else []
                         | None => [] end else []).
 
 (* a plain send (bank send, multi-send) that moved coins out of account [a] *)
-Definition path_clauses (a : acct) (to amt : Z) (path : string) : list string :=
+Definition path_clauses (a : acct) (to : Z) (amt : coins) (path : string) : list string :=
   (if guarded a && (0 <? n_cust a) then [cl "blocked" path] else []) ++ wl_lim_clauses a to amt path.
 
 (* the log kept along a history: approvals and declines by genuine custodians (from, target, lower-case
@@ -147,13 +163,13 @@ Definition in2 (t : Z) (h : string) (l : list (Z * string)) : bool :=
 Definition count_appr (t : Z) (h : string) (l : list (Z * Z * string)) : Z :=
   Z.of_nat (List.length (filter (fun e => match e with (_, t', h') => (t =? t') && String.eqb h h' end) l)).
 
-(* a pooled transfer of [t] was paid out in this step *)
+(* a pooled transfer of [t] is gone from the pool after this step *)
 Definition released (pre post : state) (t : Z) (h : string) : option txr :=
   match a_pool (getA pre t) with
   | Some p => match pool_get h p with
               | Some tx => match a_pool (getA post t) with
-                           | Some p' => match pool_get h p' with Some _ => None | None => if a_bal (getA post t) <? a_bal (getA pre t) then Some tx else None end
-                           | None => if a_bal (getA post t) <? a_bal (getA pre t) then Some tx else None
+                           | Some p' => match pool_get h p' with Some _ => None | None => Some tx end
+                           | None => Some tx
                            end
               | None => None end
   | None => None end.
@@ -170,11 +186,14 @@ Definition release_clauses (lg : log) (pre : state) (t : Z) (h : string) (tx : t
   (if flag s_pwd T && negb (in2 t h (l_conf lg)) then [cl3 "password" kind (if t_conf tx || String.eqb kind "confirm" then "unconfirmed" else "flag_unset")] else []) ++
   wl_lim_clauses T (t_to tx) (t_amt tx) "custody_send".
 
-Definition step_clauses (n : nat) (lg : log) (pre post : state) (o : op) : list string * log :=
+(* a vote was recorded in this step (the vote store grew) *)
+Definition voted (pre post : state) : bool := negb (Nat.eqb (List.length (marks pre)) (List.length (marks post))).
+
+(* A. the configuration of a guarded account changes only with the preimage of ITS current key *)
+Definition key_clauses (n : nat) (pre post : state) (o : op) : list string :=
   let kind := kind_name o in
   let sg := signer o in
-  (* A. configuration of a guarded account changes only with the preimage of ITS current key *)
-  let key_cl := flat_map (fun i =>
+  flat_map (fun i =>
       let x := Z.of_nat i in
       let X := getA pre x in
       if guarded X && negb (config_eqb X (getA post x)) then
@@ -188,77 +207,79 @@ Definition step_clauses (n : nat) (lg : log) (pre post : state) (o : op) : list 
                                   end)]
         | _, _ => [cl3 "key" kind "nonsettings"]
         end
-      else []) (seq 0 n) in
-  (* H. coins leave a guarded account (with custodians) only in the steps that are explained below *)
-  let out_cl := flat_map (fun i =>
+      else []) (seq 0 n).
+
+(* H. coins leave a guarded account (with custodians) only in the steps that are explained below *)
+Definition out_clauses (n : nat) (pre post : state) (o : op) : list string :=
+  let kind := kind_name o in
+  flat_map (fun i =>
       let x := Z.of_nat i in
       let X := getA pre x in
-      if guarded X && (0 <? n_cust X) && (a_bal (getA post x) <? a_bal X) then
+      if guarded X && (0 <? n_cust X) && dec X (getA post x) then
         match o with
         | OApprove _ t _ | ODecline _ t _ | OConfirm _ t _ _ _ => if t =? x then [] else [cl "outflow" kind]
-        | OSend s _ _ _ _ _ | OBank s _ _ | OMulti s _ _ => if s =? x then [] else [cl "outflow" kind]
+        | OSend s _ _ _ _ _ | OBank s _ _ _ | OMulti s _ _ => if s =? x then [] else [cl "outflow" kind]
         | _ => [cl "outflow" kind]
         end
-      else []) (seq 0 n) in
-  let changed := negb (state_eqb n pre post) in
-  let '(cls, lg') :=
-    match o with
-    | OApprove f t hraw =>
-        if changed then
-          let h := to_lower hraw in
-          let T := getA pre t in
-          let isc := is_custodian T f in
-          let dup := in3 f t h (l_appr lg) || in3 f t h (l_decl lg) in
-          let lg1 := if isc && negb dup then mkLog ((f, t, h) :: l_appr lg) (l_decl lg) (l_conf lg) else lg in
-          ((if isc then [] else [cl "only_custodians" kind]) ++ (if isc && dup then [cl "vote_once" kind] else []) ++
+      else []) (seq 0 n).
+
+(* the clauses of the operation itself, and the log after it *)
+Definition op_clauses (n : nat) (lg : log) (pre post : state) (o : op) : list string * log :=
+  let kind := kind_name o in
+  match o with
+  | OApprove f t hraw =>
+      let h := to_lower hraw in
+      let T := getA pre t in
+      let isc := is_custodian T f in
+      let dup := in3 f t h (l_appr lg) || in3 f t h (l_decl lg) in
+      let vt := voted pre post in
+      let lg1 := if isc && negb dup && vt then mkLog ((f, t, h) :: l_appr lg) (l_decl lg) (l_conf lg) else lg in
+      ((if negb isc && negb (state_eqb n pre post) then [cl "only_custodians" kind] else []) ++
+       (if isc && dup && vt then [cl "vote_once" kind] else []) ++
+       (match released pre post t h with
+        | Some tx => release_clauses lg1 pre t h tx (t_votes tx + 1) kind
+        | None => []
+        end), lg1)
+  | ODecline f t hraw =>
+      let h := to_lower hraw in
+      let T := getA pre t in
+      let isc := is_custodian T f in
+      let dup := in3 f t h (l_appr lg) || in3 f t h (l_decl lg) in
+      let vt := voted pre post in
+      let lg1 := if isc && negb dup && vt then mkLog (l_appr lg) ((f, t, h) :: l_decl lg) (l_conf lg) else lg in
+      ((if negb isc && negb (state_eqb n pre post) then [cl "only_custodians" kind] else []) ++
+       (if isc && dup && vt then [cl "vote_once" kind] else []) ++
+       (match released pre post t h with Some _ => [cl "release" kind] | None => [] end), lg1)
+  | OConfirm f t hraw p ph =>
+      let h := to_lower hraw in
+      let T := getA pre t in
+      match (match a_pool T with Some pl => pool_get h pl | None => None end) with
+      | Some tx =>
+          (* an accepted confirmation of a pending transfer: the password must be the one of the request
+             (given as it is, or as its digest) *)
+          let good := String.eqb p (t_pw tx) || String.eqb ph (t_pw tx) in
+          let lg1 := if good then mkLog (l_appr lg) (l_decl lg) ((t, h) :: l_conf lg) else lg in
+          ((if good then [] else [cl3 "password" kind "wrong"]) ++
            (match released pre post t h with
-            | Some tx => release_clauses lg1 pre t h tx (t_votes tx + 1) kind
-                         ++ (if a_bal T - a_bal (getA post t) <=? t_amt tx + hd 0 (t_rew tx) then [] else [cl "overpaid" kind])
-            | None => if a_bal T - a_bal (getA post t) <=? hd 0 (match a_pool T with Some p => match pool_get h p with Some tx => t_rew tx | None => [] end | None => [] end)
-                      then [] else [cl "overpaid" kind]
-            end), lg1)
-        else ([], lg)
-    | ODecline f t hraw =>
-        if changed then
-          let h := to_lower hraw in
-          let T := getA pre t in
-          let isc := is_custodian T f in
-          let dup := in3 f t h (l_appr lg) || in3 f t h (l_decl lg) in
-          let lg1 := if isc && negb dup then mkLog (l_appr lg) ((f, t, h) :: l_decl lg) (l_conf lg) else lg in
-          ((if isc then [] else [cl "only_custodians" kind]) ++ (if isc && dup then [cl "vote_once" kind] else []) ++
-           (match released pre post t h with Some _ => [cl "release" kind] | None => [] end), lg1)
-        else ([], lg)
-    | OConfirm f t hraw p ph =>
-        if changed then
-          let h := to_lower hraw in
-          let T := getA pre t in
-          match a_pool T with
-          | Some pl => match pool_get h pl with
-                       | Some tx =>
-                           let good := String.eqb p (t_pw tx) || String.eqb ph (t_pw tx) in
-                           let lg1 := if good then mkLog (l_appr lg) (l_decl lg) ((t, h) :: l_conf lg) else lg in
-                           ((if good then [] else [cl3 "password" kind "wrong"]) ++
-                            (match released pre post t h with
-                             | Some tx => release_clauses lg1 pre t h tx (t_votes tx) kind
-                             | None => [] end), lg1)
-                       | None => ([cl3 "password" kind "no_transfer"], lg) end
-          | None => ([cl3 "password" kind "no_transfer"], lg) end
-        else ([], lg)
-    | OSend s to amt _ _ _ =>
-        let S := getA pre s in
-        if a_bal (getA post s) <? a_bal S then      (* paid out directly *)
-          ((if guarded S && (0 <? n_cust S) then [cl3 "threshold" kind "direct"] else []) ++
-           (if flag s_pwd S then [cl3 "password" kind "direct"] else []) ++
-           wl_lim_clauses S to amt kind, lg)
-        else ([], lg)
-    | OBank s to amt | OMulti s to amt =>
-        let S := getA pre s in
-        if a_bal (getA post s) <? a_bal S then
-          (path_clauses S to amt kind, lg)
-        else ([], lg)
-    | _ => ([], lg)
-    end in
-  (key_cl ++ out_cl ++ cls, lg').
+            | Some tx => release_clauses lg1 pre t h tx (t_votes tx) kind
+            | None => [] end), lg1)
+      | None => (if state_eqb n pre post then [] else [cl3 "password" kind "no_transfer"], lg)
+      end
+  | OSend s to amt _ _ _ =>
+      let S := getA pre s in
+      if dec S (getA post s) then      (* paid out directly *)
+        ((if guarded S && (0 <? n_cust S) then [cl3 "threshold" kind "direct"] else []) ++
+         (if flag s_pwd S then [cl3 "password" kind "direct"] else []) ++
+         wl_lim_clauses S to amt kind, lg)
+      else ([], lg)
+  | OBank s to amt _ | OMulti s to amt =>
+      let S := getA pre s in
+      if dec S (getA post s) then (path_clauses S to amt kind, lg) else ([], lg)
+  | _ => ([], lg)
+  end.
+
+Definition step_clauses (n : nat) (lg : log) (pre post : state) (o : op) : list string * log :=
+  (key_clauses n pre post o ++ out_clauses n pre post o ++ fst (op_clauses n lg pre post o), snd (op_clauses n lg pre post o)).
 
 Fixpoint dedup (l : list string) : list string :=
   match l with [] => [] | x :: r => if str_in x r then dedup r else x :: dedup r end.
@@ -273,7 +294,7 @@ Fixpoint trace_clauses (n : nat) (lg : log) (s : state) (tr : trace) : list stri
   | (o, code, None) :: _ => ["unmodelled_state"%string]
   | (o, code, Some post) :: r =>
       if code =? 0 then
-        let '(c, lg') := step_clauses n lg s post o in c ++ trace_clauses n lg' post r
+        fst (step_clauses n lg s post o) ++ trace_clauses n (snd (step_clauses n lg s post o)) post r
       else (if state_eqb n s post then [] else [cl "not_atomic" (kind_name o)]) ++ trace_clauses n lg post r
   end.
 
@@ -295,15 +316,16 @@ Definition case_clauses (c : c17_case) : list string :=
 
 (* the trace the MODEL produces for a list of operations: the same checker runs over it in the proofs *)
 Section ModelTrace.
+Variable v : variant.
 Variable H : string -> string.
 Variable minrew : Z.
-Fixpoint model_trace (n : nat) (s : state) (ops : list op) : trace :=
+Fixpoint model_trace (s : state) (ops : list op) : trace :=
   match ops with
   | [] => []
-  | o :: r => let s' := compact n (exec H minrew s o) in (o, outcome_code (step H minrew s o), Some s') :: model_trace n s' r
+  | o :: r => let s' := exec v H minrew s o in (o, outcome_code (step v H minrew s o), Some s') :: model_trace s' r
   end.
-Definition model_clauses (bals : list Z) (ops : list op) : list string :=
-  let n := List.length bals in trace_clauses n no_log (init_state bals) (model_trace n (init_state bals) ops).
+Definition model_clauses (bals : list coins) (ops : list op) : list string :=
+  trace_clauses (List.length bals) no_log (init_state bals) (model_trace (init_state bals) ops).
 End ModelTrace.
 
 Fixpoint violations_from (k : nat) (cs : list c17_case) : list (nat * list string) :=
